@@ -84,13 +84,11 @@ LaneOk(r, x) == \/ Has(r, "skip") /\ r.skip
 
 FirstActive(st) == IF IsZero(st.exec) THEN 1 ELSE FindLow1(st.exec) + 1
 
-\* A lane-mask result (compare result, carry out) is prescribed for the active lanes only.  The
-\* manuals do not say what the bits of inactive lanes become (hardware writes 0): the specification
-\* accepts "zero" and "unchanged", uniformly for all inactive lanes.
+\* A lane-mask result (compare result, carry out) has one bit per lane: the prescribed bit for an active lane
+\* and 0 for an inactive lane (the whole SGPR pair / VCC is written, whatever EXEC is - also when EXEC = 0).
 MaskCandidates(rec, R, old) ==
   LET st == rec.pre
-  IN {MaskOf([k \in Lanes |-> IF ExecBit(st, k) = 1 THEN R[k].cc ELSE 0]),
-      MaskOf([k \in Lanes |-> IF ExecBit(st, k) = 1 THEN R[k].cc ELSE Bit(old, k - 1)])}
+  IN {MaskOf([k \in Lanes |-> IF ExecBit(st, k) = 1 THEN R[k].cc ELSE 0])}
 
 VecDiff(rec) ==
   LET nm == Nm(rec)
